@@ -112,11 +112,53 @@ def odd_catalogue(ifaces):
         {"declare": None, "conform": ["getraise", "AttributeError"]},
         {"declare": None, "conform": ["getraise", "ValueError"]},
         {"declare": None, "conform": ["getnone"]},
+        # falsy results and falsy objects: only None means "nothing"
+        {"declare": None, "conform": ["retvalue", 107]},
+        {"declare": None, "conform": ["retvalue", 207]},
+        {"declare": None, "conform": ["retvalue", 300]},
+        {"declare": [i0], "falsy": "bool"},
+        {"declare": [i0], "falsy": "len"},
+        {"declare": None, "falsy": "bool", "conform": ["retnone"]},
     ]
     return cat
 
 
 # --------------------------------------------------------------------------- program generator
+
+REENT_ENTRIES = ["lookup", "lookup1", "queryAdapter", "adapter_hook", "queryMultiAdapter", "lookupAll", "names",
+                 "subscriptions", "subscribers"]
+
+
+def gen_reent(rng, n_regs, ifaces, classes, entry=None, trigger=None, mutation=None, reg=None):
+    """["reent", trigger, entry, r, bases, provided, name, mutation, arity2] (see c10_driver.Interp.reent)"""
+    r = rng.randrange(n_regs) if reg is None else reg
+    entry = entry or rng.choice(REENT_ENTRIES)
+    trigger = trigger or rng.choice(["subscribe", "subscribe", "weakref", "sro"])
+    req_i = rng.choice(ifaces)
+    prov_i = rng.choice(ifaces)
+    name = rng.choice(["", "", "n1"])
+    arity2 = entry in ("lookup", "queryMultiAdapter", "lookupAll", "names", "subscriptions", "subscribers") and rng.random() < 0.3
+    req = [req_i, req_i] if arity2 else [req_i]
+    nm = 0 if name == "" else 1
+    kind = mutation or rng.choice(["register", "register", "unregister", "subscribe", "unsubscribe", "changed",
+                                   "setregbases"])
+    if entry in ("subscriptions", "subscribers") and mutation is None and rng.random() < 0.7:
+        kind = rng.choice(["subscribe", "unsubscribe"])
+    v = RG.gen_value(rng)
+    if kind == "register":
+        mut = ["register", r, req, prov_i, nm, v]
+    elif kind == "unregister":
+        mut = ["unregister", r, req, prov_i, nm, None]
+    elif kind == "subscribe":
+        mut = ["subscribe", r, req, prov_i, v]
+    elif kind == "unsubscribe":
+        mut = ["unsubscribe", r, req, prov_i, None]
+    elif kind == "setregbases":
+        mut = ["setregbases", r, []]
+    else:
+        mut = ["changed", r]
+    return ["reent", trigger, entry, r, [req_i], ["S", prov_i], name, mut, arity2]
+
 
 def gen_program(rng, n_ops=40, stress=None):
     world, ifaces, classes = RG.gen_world(rng, n_ifaces=rng.choice([3, 4, 5]), n_classes=rng.choice([2, 3]),
@@ -150,11 +192,13 @@ def gen_program(rng, n_ops=40, stress=None):
             r = rng.random()
             if r < 0.35:
                 ad = rng.choice([["none"], ["value", k + 1], ["value", k + 1], ["raise", "ValueError"],
-                                 ["raise", "TypeError"], ["delegate"]])
+                                 ["raise", "TypeError"], ["delegate"], ["value", 100 + k], ["value", 200 + k],
+                                 ["value", 300]])
             if rng.random() < 0.35:
                 other = True
-        xifaces.append({"name": nm, "module": md, "bases": bases, "adapt": ad, "other": other})
-        custom.append(ad is not None or other or any(custom[b] for b in bases))
+        provby = ident and shapes != "plain" and rng.random() < 0.08
+        xifaces.append({"name": nm, "module": md, "bases": bases, "adapt": ad, "other": other, "provby": provby})
+        custom.append(ad is not None or other or provby or any(custom[b] for b in bases))
     if shapes == "chain":
         # the F8 shape: custom __adapt__, then a sub-interface that adds *another* interfacemethod
         xifaces.append({"name": "IBase", "module": "m", "bases": [], "adapt": ["value", 50], "other": False})
@@ -327,13 +371,19 @@ def gen_program(rng, n_ops=40, stress=None):
                 hooks = []
                 for _ in range(rng.choice([0, 1, 1, 2])):
                     h = rng.choice([["none"], ["value", rng.randrange(20, 25)], ["raise", "ValueError"],
-                                    ["reg", rng.randrange(n_regs)], ["reg", rng.randrange(n_regs)]])
+                                    ["reg", rng.randrange(n_regs)], ["reg", rng.randrange(n_regs)],
+                                    ["value", rng.choice([120, 220, 300, 301, 302])],
+                                    ["value", rng.choice([121, 221, 300])]])
                     hooks.append(h)
                 return [["sethooks", hooks]]
             iface = r_iface() if rng.random() < 0.5 else ["X", rng.randrange(nxi)]
             if q < 0.3:
                 return [["adapt", iface, r_obj()]]
-            return [["call", iface, r_obj(), rng.random() < 0.5]]
+            return [["call", iface, r_obj(), rng.choice([False, True, True, "falsy"])]]
+        if r < 0.86:      # a lookup during which the registry changes, then the same lookup again
+            return [gen_reent(rng, n_regs, ifaces, classes)]
+        if r < 0.87:
+            return [rng.choice([["icsub", rng.choice(["adapt", "adapt_sub", "providedBy"]), r_obj(), rng.random() < 0.5]])]
         # registry entry points with odd arguments / explicit defaults
         reg = rng.randrange(n_regs)
         meth = rng.choice(["lookup", "lookup1", "queryAdapter", "adapter_hook", "lookupAll", "subscriptions",
@@ -382,7 +432,10 @@ def gen_matrix(rng):
                         {"name": "IA", "module": "n", "bases": [], "adapt": None, "other": False},
                         {"name": "IB", "module": "a", "bases": [], "adapt": None, "other": False},
                         {"name": "IB", "module": "a", "bases": [], "adapt": None, "other": False},
-                        {"name": "", "module": "z", "bases": [], "adapt": None, "other": False}]
+                        {"name": "", "module": "z", "bases": [], "adapt": None, "other": False},
+                        # an overridden providedBy (and a sub-interface inheriting it)
+                        {"name": "IP", "module": "m", "bases": [], "adapt": None, "other": False, "provby": True},
+                        {"name": "IPS", "module": "m", "bases": [6], "adapt": None, "other": False}]
     world["odd"] = cat
     I = ["S", ifaces[0]]
     X = ["X", 1]
@@ -429,6 +482,60 @@ def gen_matrix(rng):
         for b in operands:
             cases.append({"world": world, "ops": [["cmp", a, b], ["hash", a if a[0] in "XS" else I, b]], "matrix": True})
     cases.append({"world": world, "ops": [["sort", operands[:8]], ["dict", operands[:7]]], "matrix": True})
+    # re-entrant lookups: every entry point x trigger x mutation x flavour, with an earlier
+    # registration / subscription for the same key so that there is something to find or to lose
+    req_i, prov_i = ifaces[0], ifaces[1]
+    for flavour in ("push", "verifying"):
+        for entry in REENT_ENTRIES:
+            for trigger in ("subscribe", "weakref", "sro"):
+                for mutation in ("register", "unregister", "subscribe", "unsubscribe", "changed"):
+                    for pre in (False, True):
+                        ops = [["newreg", flavour, []]]
+                        if pre:
+                            ops.append(["register", 0, [req_i], prov_i, 0, [1, 1]])
+                            ops.append(["subscribe", 0, [req_i], prov_i, [2, 1]])
+                        op = gen_reent(rng, 1, [req_i], classes, entry=entry, trigger=trigger, mutation=mutation, reg=0)
+                        op[5] = ["S", prov_i]
+                        op[6] = ""
+                        if op[7][0] in ("register", "unregister"):
+                            op[7][3], op[7][4] = prov_i, 0
+                        elif op[7][0] in ("subscribe", "unsubscribe"):
+                            op[7][3] = prov_i
+                        ops.append(op)
+                        cases.append({"world": world, "ops": ops, "matrix": True})
+    # falsy-but-not-None results wherever a result is tested against None
+    for fv in (120, 220, 300, 301, 302):
+        for o in (["o", 0], ["odd", 0]):
+            for alt in (False, True, "falsy"):
+                cases.append({"world": world, "matrix": True,
+                              "ops": [["sethooks", [["value", fv], ["value", 21]]], ["call", I, o, alt],
+                                      ["adapt", I, o], ["call", X, o, alt]]})
+    for vid in (4, 5):
+        for o in (["o", 0], ["o", 1]):
+            cases.append({"world": world, "matrix": True, "ops": [
+                ["newreg", "push", []], ["register", 0, [0], ifaces[0], 0, [vid, vid]],
+                ["subscribe", 0, [0], ifaces[0], [vid, vid]],
+                ["xreg", "lookup", 0, ["tuple", [["S", 0]]], I, None, True],
+                ["xreg", "lookup1", 0, ["raw", [["S", 0]]], I, None, True],
+                ["xreg", "queryAdapter", 0, ["raw", [o]], I, None, True],
+                ["xreg", "adapter_hook", 0, ["raw", [o]], I, None, True],
+                ["xreg", "queryMultiAdapter", 0, ["tuple", [o]], I, None, True],
+                ["xreg", "subscribers", 0, ["tuple", [o]], I, None, False],
+                ["xreg", "lookupAll", 0, ["tuple", [["S", 0]]], I, None, False],
+                ["sethooks", [["reg", 0]]], ["call", I, o, True], ["call", I, o, "falsy"],
+                ["registered", 0, [0], ifaces[0], 0], ["unregister", 0, [0], ifaces[0], 0, [vid, vid]],
+                ["unsubscribe", 0, [0], ifaces[0], [vid, vid]], ["allRegistrations", 0], ["allSubscriptions", 0]]})
+    # specification methods called by keyword; interface classes that are plain InterfaceClass subclasses
+    for meth, arg in (("isOrExtends", I), ("extends", I), ("providedBy", ["o", 0]), ("implementedBy", ["c", c0])):
+        cases.append({"world": world, "ops": [["m_kw", meth, I, arg]], "matrix": True})
+    for what in ("adapt", "adapt_sub", "providedBy"):
+        for alt in (False, True):
+            cases.append({"world": world, "ops": [["icsub", what, ["o", 0], alt]], "matrix": True})
+    for k in (6, 7):
+        for alt in (False, True):
+            cases.append({"world": world, "matrix": True,
+                          "ops": [["m", "providedBy", ["X", k], ["o", 0]], ["call", ["X", k], ["o", 0], alt],
+                                  ["adapt", ["X", k], ["o", 0]]]})
     # the documented base classes, bare (slots never assigned)
     for what in ("ib_hash_unhashable", "ib_hash_unset", "cpb_unset", "cpb_no_implements", "cpb_other_cls",
                  "sb_unset", "sb_implied_none"):
@@ -635,12 +742,34 @@ def _is_g8(op, tc, tp):
     return False
 
 
+G11_KEY = "G11:spec-method-argument-by-keyword"
+G12_KEY = "G12:interfaceclass-subclass-adapt-ignored-by-C-call"
+G13_KEY = "G13:providedBy-override-ignored-by-C-adapt"
+
+
+def _provby_lineage(case, k):
+    xs = case["world"].get("xifaces", [])
+    if k >= len(xs):
+        return False
+    x = xs[k]
+    if x.get("adapt") is not None:
+        return False
+    return bool(x.get("provby")) or any(_provby_lineage(case, b) for b in x["bases"])
+
+
 def diff_key(case, tok_c, tok_py, i):
     """signature of a C/Python divergence: the cause when it is a known one, else op kind + the two
     tokens reduced to their shape"""
     op = case["ops"][i] if i < len(case["ops"]) else ["<length>"]
     if _is_g8(op, tok_c, tok_py):
         return G8_KEY
+    if op[0] == "icsub":
+        return G13_KEY if op[1] == "providedBy" else G12_KEY
+    if op[0] in ("call", "adapt") and op[1][0] == "X" and _provby_lineage(case, op[1][1]) and tok_c != tok_py:
+        return G13_KEY
+    if op[0] == "m_kw" and op[1] in ("isOrExtends", "providedBy", "implementedBy") and tok_c == "EXC:TypeError":
+        # the C methods are METH_O: no keyword arguments
+        return G11_KEY
 
     def shape(t):
         if isinstance(t, str):
